@@ -29,7 +29,7 @@ func VerifC17Relay() {
 	k := verifnd.Choose("case", 8) // sharded: call site x direction
 	site := k % 4                  // read, write, set-deadline, close
 	upload := k/4 == 0
-	kind := verifnd.Choose("kind", 11) // every shape of verifErr
+	kind := verifnd.Choose("kind", 12) // every shape of verifErr
 	client := "203.0.113.77"
 	if verifnd.Bool("v6-client") {
 		client = "2001:db8:c11e::77"
@@ -69,7 +69,7 @@ func VerifC17Relay() {
 	}
 	if verifnd.Thorough() && site != 3 {
 		// thorough: a second fault - closing the client connection fails as well, with any shape
-		k2 := verifnd.Choose("close-kind", 11)
+		k2 := verifnd.Choose("close-kind", 12)
 		cl.closeErr = verifErr(k2, "close")
 	}
 	var wg sync.WaitGroup
@@ -111,7 +111,7 @@ func VerifC17Proxy() {
 	covert := &verifConn{name: "covert", deadlineErr: -1, remote: verifCovertAddr}
 	cl.reads = []verifRead{{n: 2}}
 	covert.reads = []verifRead{{n: 2}}
-	kind := verifnd.Choose("kind", 11)
+	kind := verifnd.Choose("kind", 12)
 	fault := verifnd.Choose("fault", 5)
 	verifnd.Finding("C17-F1", kind == 5 && fault >= 3)
 	switch fault {
